@@ -124,6 +124,18 @@ def sum_full_ok(self, levels, result):
     M, labels = np.asarray(result.matrix), list(result.labels)
     if M.shape != (n, n) or len(labels) != n or (n and space.rank(M) != n):
         _viol("sum-full", self, levels, f"span: full coding {M.shape} with {len(labels)} labels does not span the {n} indicators")
+        return True
+    # the full coding is the constant followed by the reduced coding: its labels name those columns
+    omit = levels[-1] if self.omit is None else self.omit
+    if omit in levels and n:
+        kept = [l for l in levels if l != omit]
+        if np.any(M[:, 0] != 1) or labels[1:] != [str(l) for l in kept]:
+            _viol("sum-full", self, levels, f"labels: {labels} do not name the columns (constant, then the kept levels {kept})")
+        else:
+            for j, l in enumerate(kept):
+                if M[levels.index(l), j + 1] != 1 or M[levels.index(omit), j + 1] != -1 or np.abs(M[:, j + 1]).sum() != 2:
+                    _viol("sum-full", self, levels, f"indicator: column {j + 1} is not +1 on level {l!r} and -1 on the omitted level")
+                    break
     return True
 
 
@@ -247,6 +259,23 @@ def design_driver(m, i, nshards, tier):
                                 kept = [l for l in levels if l != om]
                                 want = np.column_stack([(rows == l).astype(float) - (rows == om).astype(float) for l in kept])
                             labels = [f"{text}[{l}]" for l in kept]
+                            # the same call in a full-rank position: all levels, in the order given by levels=
+                            m.ev("options-honoured")
+                            try:
+                                dm0 = formulae.design_matrices("y ~ 0 + " + text, df, extra_namespace=ns)
+                                X0 = np.asarray(dm0.common[text], dtype=float)
+                                if kind == "T":
+                                    want0 = np.column_stack([(rows == l).astype(float) for l in levels])
+                                    lab0 = [f"{text}[{l}]" for l in levels]
+                                else:
+                                    want0 = np.column_stack([np.ones(nrow), want])
+                                    lab0 = [f"{text}[mean]"] + labels
+                                if X0.shape != want0.shape or not np.array_equal(X0, want0) or list(dm0.common.terms[text].labels) != lab0:
+                                    m.violation("options-honoured", f"0 + {text} with lv={levels}: full-rank columns / labels do not follow the "
+                                                f"given level order (labels {dm0.common.terms[text].labels})", case={**case, "formula": "y ~ 0 + " + text},
+                                                key="full-rank:" + fn)
+                            except Exception as e:
+                                m.violation("options-honoured", f"0 + {text}: {type(e).__name__}: {e}", case=case, key="raises")
                             if X.shape != want.shape or not np.array_equal(X, want):
                                 m.violation("options-honoured", f"{text} with lv={levels}: columns do not follow the given level order / "
                                             f"reference (expected kept levels {kept})", case=case, key="columns:" + fn)
